@@ -52,7 +52,13 @@ def build_decoded(ex, apath_variant='valid', version='0.6.3'):
     n = A.mk_entry(ex, '/n', 'File', 3, addrs=[A.mk_addr(ex, gh, 0, 10)], mode=0o644)
     A.put_head(ex, st, 0, version)
     A.put_hunk(ex, st, 0, 0, [root, w, n])
-    A.put_tail(ex, st, 0, 1)
+    # the tail is decoded too: its hunk count may say anything (a flipped digit), or be absent as in old archives
+    if ex.branch(ex.fresh_bool('wtail_count_present'), 'tail has a count?'):
+        # (chosen from a list: the count ends up in an error message, and a symbolic integer cannot be formatted)
+        counts = [0, 1, 2, 9, U64]
+        A.put_tail(ex, st, 0, counts[ex.concretize(ex.fresh_int('wtail_count_i', 0, len(counts) - 1), 0, len(counts) - 1, 'tail hunk count')])
+    else:
+        A.put_tail(ex, st, 0, None)
     st.mode = 'run'
     return st, ar, desc
 
